@@ -165,9 +165,110 @@ macro "ne_lib" : tactic => `(tactic| first
   | (apply NE_forIn; intro _ _)
   | ne_step)
 
+theorem NE_floatToIntM (f : Float) : NE (floatToIntM f) := by unfold floatToIntM; ne
+theorem NE_floatIsIntM (f : Float) : NE (floatIsIntM f) := by unfold floatIsIntM; ne
+
+theorem NE_floatMember (f : Float) (n : String) (vs : List Val) : NE (floatMember f n vs) := by
+  unfold floatMember
+  repeat (first | exact NE_floatToIntM _ | exact NE_floatIsIntM _ | ne_lib)
+
+theorem NE_strconvErr {α : Type} (fn s why : String) (sp : Span) : NE (strconvErr fn s why sp : M α) := by
+  unfold strconvErr; ne
+theorem NE_strSubstring (s : String) (vs : List Val) (sp : Span) : NE (strSubstring s vs sp) := by
+  unfold strSubstring; ne
+theorem NE_strReplace (s : String) (vs : List Val) : NE (strReplace s vs) := by unfold strReplace; ne
+theorem NE_strSplit (s : String) (vs : List Val) : NE (strSplit s vs) := by unfold strSplit; repeat ne_lib
+theorem NE_strToUpper (s : String) : NE (strToUpper s) := by unfold strToUpper; ne
+theorem NE_strToLower (s : String) : NE (strToLower s) := by unfold strToLower; ne
+theorem NE_strParseInt (s : String) (sp : Span) : NE (strParseInt s sp) := by
+  unfold strParseInt; repeat (first | exact NE_strconvErr _ _ _ _ | ne_step)
+theorem NE_strParseBool (s : String) (sp : Span) : NE (strParseBool s sp) := by
+  unfold strParseBool; repeat (first | exact NE_strconvErr _ _ _ _ | ne_step)
+theorem NE_strParseFloat (s : String) (sp : Span) : NE (strParseFloat s sp) := by
+  unfold strParseFloat; repeat (first | exact NE_strconvErr _ _ _ _ | ne_step)
+
+theorem NE_strMember (s : String) (n : String) (vs : List Val) (sp : Span) : NE (strMember s n vs sp) := by
+  unfold strMember
+  repeat (first | exact NE_strSubstring _ _ _ | exact NE_strReplace _ _ | exact NE_strSplit _ _ | exact NE_strToUpper _ | exact NE_strToLower _ | exact NE_strParseInt _ _ | exact NE_strParseBool _ _ | exact NE_strParseFloat _ _ | ne_step)
+
+theorem NE_listSort (a : Nat) (xs : List Val) : NE (listSort a xs) := by
+  unfold listSort
+  repeat ne_lib
+
+theorem NE_kindNameM (v : Val) : NE (kindNameM v) := by
+  unfold kindNameM
+  repeat ne_lib
+
+theorem NE_typeKindNameM (v : Val) : NE (typeKindNameM v) := by
+  unfold typeKindNameM
+  repeat ne_lib
+
+set_option maxHeartbeats 1000000 in
 theorem NE_callMember (recv : Val) (n : String) (vs : List Val) (sp : Span) : NE (callMember recv n vs sp) := by
   unfold callMember
-  repeat ne_lib
+  repeat (first | exact NE_floatMember _ _ _ | exact NE_strMember _ _ _ _ | exact NE_listSort _ _ | exact NE_typeKindNameM _ | ne_lib)
+
+theorem NE_castIncompat {α : Type} (v : Val) (t : Ty) (path : String) (sp : Span) :
+    NE (castIncompat v t path sp : M α) := by
+  unfold castIncompat
+  repeat (first | exact NE_kindNameM _ | ne_lib)
+
+/-- `deepClone` / `deepCloneList` / `deepCloneFields` at one fuel. -/
+structure CloneNE (n : Nat) : Prop where
+  val : ∀ v, NE (deepClone n v)
+  list : ∀ xs, NE (deepCloneList n xs)
+  fields : ∀ fs, NE (deepCloneFields n fs)
+
+theorem cloneNE : ∀ n, CloneNE n := by
+  intro n
+  induction n with
+  | zero =>
+    constructor <;> intros <;> simp only [deepClone, deepCloneList, deepCloneFields] <;> exact NE_throw _ rfl
+  | succ n ih =>
+    refine ⟨?_, ?_, ?_⟩
+    · intro v
+      cases v <;> simp only [deepClone] <;>
+        repeat (first | exact ih.val _ | exact ih.list _ | exact ih.fields _ | ne_lib)
+    · intro xs
+      cases xs <;> simp only [deepCloneList] <;>
+        repeat (first | exact ih.val _ | exact ih.list _ | exact ih.fields _ | ne_lib)
+    · intro fs
+      cases fs with
+      | nil => simp only [deepCloneFields]; exact NE_pure _
+      | cons f fs =>
+        obtain ⟨k, x⟩ := f
+        simp only [deepCloneFields]
+        repeat (first | exact ih.val _ | exact ih.list _ | exact ih.fields _ | ne_lib)
+
+/-- `castVal` / `castList` / `castFields` at one fuel. -/
+structure CastNE (n : Nat) : Prop where
+  val : ∀ v t allow path sp, NE (castVal n v t allow path sp)
+  list : ∀ xs t allow path idx sp, NE (castList n xs t allow path idx sp)
+  fields : ∀ fs tfs allow path sp, NE (castFields n fs tfs allow path sp)
+
+theorem castNE : ∀ n, CastNE n := by
+  intro n
+  induction n with
+  | zero =>
+    constructor <;> intros <;> simp only [castVal, castList, castFields] <;> exact NE_throw _ rfl
+  | succ n ih =>
+    refine ⟨?_, ?_, ?_⟩
+    · intro v t allow path sp
+      simp only [castVal]
+      repeat (first | exact ih.val _ _ _ _ _ | exact ih.list _ _ _ _ _ _ | exact ih.fields _ _ _ _ _ | exact NE_castIncompat _ _ _ _ | exact NE_floatToIntM _ | exact (cloneNE _).fields _ | ne_lib)
+    · intro xs t allow path idx sp
+      cases xs <;> simp only [castList] <;>
+        repeat (first | exact ih.val _ _ _ _ _ | exact ih.list _ _ _ _ _ _ | ne_lib)
+    · intro fs tfs allow path sp
+      cases fs with
+      | nil => simp only [castFields]; exact NE_pure _
+      | cons f fs =>
+        obtain ⟨k, x⟩ := f
+        simp only [castFields]
+        repeat (first | exact ih.val _ _ _ _ _ | exact ih.fields _ _ _ _ _ | ne_lib)
+
+theorem NE_castVal (n : Nat) (v : Val) (t : Ty) (allow : Bool) (path : String) (sp : Span) :
+    NE (castVal n v t allow path sp) := (castNE n).val v t allow path sp
 
 end HmsProofs.Lemmas.Fuzz
 
@@ -235,6 +336,7 @@ macro "ne_more" : tactic => `(tactic| first
   | exact NE_callBuiltin _ _ _
   | exact NE_callMember _ _ _ _
   | exact NE_declare _ _
+  | exact NE_castVal _ _ _ _ _ _
   | apply NE_inScope
   | ne_lib)
 
